@@ -51,6 +51,9 @@ def op_constructors(facts):
     for b in facts.fns():
         if b["def"] in ATTACH_PRIMITIVES:
             continue
+        out_ty = b.get("output") or ""
+        if out_ty != ARRAY and not out_ty.endswith(">::Output"):
+            continue                    # an operation constructor returns the array it builds
         if attachment_calls(b, facts):
             out.append(b)
     return out
@@ -139,16 +142,37 @@ def r8_attach_iff_tracked(facts):
 CTOR_PREFIX = "<corgi::array::Array as core::convert::From<("
 
 
+def place_key(e, depth=0):
+    """canonical rendering of a place expression: `p`, `parameters[i]`, `self.weights` (index / index_mut, & / * ignored)"""
+    e = peel(e)
+    if depth > 8 or not isinstance(e, dict):
+        return "?"
+    k = e.get("k")
+    if k in ("VarRef", "UpvarRef"):
+        return e["v"]
+    if k == "Field":
+        return place_key(e["e"], depth + 1) + "." + e["name"]
+    if k == "Index":
+        return place_key(e["e"], depth + 1) + "[" + place_key(e["i"], depth + 1) + "]"
+    if k == "Call" and callee(e) in ("core::ops::index::Index::index", "core::ops::index::IndexMut::index_mut"):
+        return place_key(e["args"][0], depth + 1) + "[" + place_key(e["args"][1], depth + 1) + "]"
+    if k == "Call" and callee(e) in ("core::ops::deref::DerefMut::deref_mut",):
+        return place_key(e["args"][0], depth + 1)
+    if k == "Literal":
+        return str(F.lit_value(e))
+    return show(e)[:60]
+
+
 def r21_fresh_parameter(facts):
     """R21: the value installed over a parameter is a fresh, graph-free, same-shape, tracked array."""
+    from .repr_rules import callees_closure
     c = Ctx("R21", facts, "Optimizer::update installs fresh, graph-free, same-shape, tracked parameters")
     impls = [b for b in facts.fns() if b.get("impl_trait_def") == "corgi::optimizer::Optimizer" and b.get("name") == "update"]
     c.floor("Optimizer::update implementations", len(impls), 1)
-    n_stores = 0
     for u in impls:
-        for b in facts.nested(u):
+        n_stores = 0
+        for b in callees_closure(facts, u, depth=2):
             binds = F.bindings_of(facts.root(b))
-            ptypes = {v: ty for v, _, ty, _ in _all_bindings(facts, b)}
             for n in walk(facts.root(b)):
                 if n.get("k") == "Call" and callee(n) in ("core::mem::replace", "core::mem::swap", "core::mem::take") and n["args"] \
                         and ARRAY in (n["args"][0].get("ty") or ""):
@@ -156,18 +180,26 @@ def r21_fresh_parameter(facts):
                 if n.get("k") not in ("Assign", "AssignOp"):
                     continue
                 lhs = strip(n["l"])
-                if lhs.get("ty") != ARRAY:
+                if lhs.get("ty") != ARRAY or lhs.get("k") != "Deref":
                     continue
-                pv = var_of(lhs)
-                if lhs.get("k") != "Deref" or not pv or ptypes.get(pv) != "&mut " + ARRAY:
+                if not any("&mut corgi::array::Array" in (x.get("ty") or "") for x in walk(lhs)):
                     continue
                 n_stores += 1
+                target = place_key(lhs)
                 inst = "store:%s" % b["def"]
                 where = loc(b, n)
                 if n["k"] == "AssignOp":
                     c.bad(inst, where, "parameter updated in place with a compound assignment")
                     continue
-                rhs = strip(n["r"])
+
+                def unlet(e, k_=0):
+                    e = strip(e)
+                    while isinstance(e, dict) and e.get("k") == "VarRef" and e["v"] in binds and binds[e["v"]][0] == "let" \
+                            and isinstance(binds[e["v"]][1], dict) and k_ < 5:
+                        e = strip(binds[e["v"]][1])
+                        k_ += 1
+                    return e
+                rhs = unlet(n["r"])
                 if not (rhs.get("k") == "Call" and resolved(rhs) == "corgi::array::Array::tracked"):
                     if rhs.get("k") == "Call" and (resolved(rhs) or "").startswith(CTOR_PREFIX):
                         c.bad(inst, where, "the new parameter is not marked tracked(): after the first update no parameter is tracked, "
@@ -176,24 +208,25 @@ def r21_fresh_parameter(facts):
                         c.bad(inst, where, "the value installed over the parameter is not `Array::from((dims, values)).tracked()`: %s "
                               "(a parameter computed by array operations carries a graph that grows every iteration)" % show(rhs)[:120])
                     continue
-                inner = strip(rhs["args"][0])
+                inner = unlet(rhs["args"][0])
                 if not (inner.get("k") == "Call" and (resolved(inner) or "").startswith(CTOR_PREFIX)):
                     c.bad(inst, where, "tracked() is applied to %s, not to a freshly constructed array" % show(inner)[:120])
                     continue
-                tup = strip(inner["args"][0])
+                tup = unlet(inner["args"][0])
                 if tup.get("k") != "Tuple" or len(tup["fields"]) != 2:
                     c.unk(inst, where, "constructor argument is not a (dimensions, values) tuple")
                     continue
-                d = peel(tup["fields"][0])
+                d = peel(unlet(tup["fields"][0]))
                 ok_d = False
-                while d.get("k") == "Call" and callee(d) in ("alloc::slice::<impl [T]>::to_vec", "core::clone::Clone::clone", "alloc::borrow::ToOwned::to_owned"):
-                    d = peel(d["args"][0])
-                if d.get("k") == "Call" and resolved(d) == "corgi::array::Array::dimensions" and var_of(d["args"][0]) == pv:
+                k2 = 0
+                while d.get("k") == "Call" and callee(d) in ("alloc::slice::<impl [T]>::to_vec", "core::clone::Clone::clone", "alloc::borrow::ToOwned::to_owned",
+                                                            "core::convert::Into::into", "core::convert::From::from") and k2 < 5:
+                    d = peel(unlet(d["args"][0]))
+                    k2 += 1
+                if d.get("k") == "Call" and resolved(d) == "corgi::array::Array::dimensions" and place_key(d["args"][0]) == target:
                     ok_d = True
-                else:
-                    r_, ch = field_chain(d)
-                    if ch == ["dimensions"] and var_of(r_) == pv:
-                        ok_d = True
+                elif d.get("k") == "Field" and d.get("adt") == ARRAY and d["name"] == "dimensions" and place_key(d["e"]) == target:
+                    ok_d = True
                 if not ok_d:
                     c.bad(inst, where, "the new parameter's dimensions are not the old parameter's own dimensions: %s" % show(tup["fields"][0])[:100])
                     continue
@@ -201,9 +234,10 @@ def r21_fresh_parameter(facts):
                 if "corgi::array::Array" in vty:
                     c.unk(inst, where, "values component has an array type")
                     continue
+                tn = target.split("#")[0] if "[" not in target else target
                 c.ok(inst, where, "*%s = Array::from((%s.dimensions().to_vec(), <fresh Vec>)).tracked(): fresh slots, no children, no derivative, tracked"
-                     % (pv.split("#")[0], pv.split("#")[0]))
-    c.floor("stores through &mut Array parameters in update", n_stores, 1)
+                     % (tn[:30], tn[:30]))
+        c.floor("stores through &mut Array parameters in %s" % u["def"].split("::")[-2] if "::" in u["def"] else "update", n_stores, 1)
     return c
 
 
@@ -246,7 +280,19 @@ def r13_linearity(facts):
             continue
         analysed |= lin.analysed_fns
         if r is None or r.k != "vec":
-            c.unk(inst, where, "closure result is not a literal vector of slots (typed %r)" % r)
+            # the slot vector is assembled dynamically: judge all slots together
+            cls = LV.scalar(lin.read(r)) if r is not None else LV.N
+            n_slots += 1
+            for msg in lin.control_on_adjoint:
+                c.bad(inst + "#control", where, "control flow or indexing depends on the adjoint: %s" % msg)
+            if cls == LV.L:
+                c.ok(inst + "#slots", where, "every slot is None or typed L (slot vector assembled dynamically)")
+            elif cls == LV.C and not lin.notes:
+                c.bad(inst + "#slots", where, "the slots do not depend on the incoming adjoint (typed C)")
+            elif cls == LV.N and not lin.notes:
+                c.bad(inst + "#slots", where, "some slot is not linear in the incoming adjoint (typed N)")
+            else:
+                c.unk(inst + "#slots", where, "slots could not be typed (%s)%s" % (cls, ": " + "; ".join(lin.notes)[:200] if lin.notes else ""))
             continue
         for msg in lin.control_on_adjoint:
             c.bad(inst + "#control", where, "control flow or indexing depends on the adjoint: %s" % msg)
@@ -266,8 +312,10 @@ def r13_linearity(facts):
             elif cls == LV.C:
                 c.bad(sinst, where, "slot %d does not depend on the incoming adjoint (typed C): the chain rule factor x is missing, "
                       "the gradient is right only when this operation is the last one and the seed is all ones" % i)
-            elif cls == LV.Z:
+            elif cls == LV.Z and not lin.notes:
                 c.bad(sinst, where, "slot %d is identically zero (typed Z): the operand's gradient is discarded" % i)
+            elif cls == LV.Z:
+                c.unk(sinst, where, "slot %d could not be typed: %s" % (i, "; ".join(lin.notes)[:300]))
             else:
                 if lin.notes:
                     c.unk(sinst, where, "slot %d could not be typed L: %s" % (i, "; ".join(lin.notes)[:300]))
@@ -638,6 +686,64 @@ def _unit_counter(v, body_root, store_lhs):
     return False, "store statement not found in a block"
 
 
+def _suspicious_index(idx, loops, env):
+    """an index that can map two iterations of the nest to the same element: it divides or takes
+    the remainder of something that varies with the loops, or adds two loop variables with equal weight"""
+    if idx is None:
+        return False
+    loopvars = {v for l in loops for v in l["vars"]}
+
+    def expand(e, depth=0):
+        """variables an expression depends on, through let aliases"""
+        out = set()
+        for x in walk(e):
+            if x.get("k") in ("VarRef", "UpvarRef"):
+                out.add(x["v"])
+                if depth < 6 and x["v"] in env:
+                    out |= expand(env[x["v"]], depth + 1)
+        return out
+
+    def lossy(e, depth=0):
+        e0 = peel(e)
+        if depth > 8 or not isinstance(e0, dict):
+            return False
+        if e0.get("k") == "VarRef" and e0["v"] in env:
+            return lossy(env[e0["v"]], depth + 1)
+        if e0.get("k") == "Binary":
+            if e0["op"] in ("Div", "Rem") and (expand(e0["l"]) & loopvars):
+                return True
+            return lossy(e0["l"], depth + 1) or lossy(e0["r"], depth + 1)
+        if e0.get("k") == "Block" and e0.get("e") is not None:
+            return lossy(e0["e"], depth + 1)
+        return False
+    if lossy(idx):
+        return True
+    terms = _terms(idx, env)
+    if terms:
+        coef = {}
+        for c_, v in terms:
+            if v in loopvars:
+                coef.setdefault(c_, []).append(v)
+        if any(len(vs) > 1 for vs in coef.values()):
+            return True
+    return False
+
+
+def _nested_partition(s, loops):
+    """nested loops where each inner loop iterates a sub-slice handed out by the outer one
+    (`for row in buf.chunks_mut(n) { for out in row.iter_mut() { *out = .. } }`)"""
+    if len(loops) < 2:
+        return False
+    for outer, inner in zip(loops, loops[1:]):
+        it = inner.get("iter")
+        if it is None:
+            return False
+        vs = {x["v"] for x in walk(it) if x.get("k") in ("VarRef", "UpvarRef")}
+        if not (vs & set(outer["vars"])):
+            return False
+    return True
+
+
 def r15_accumulate_on_scatter(facts):
     """R15: element stores of adjoint data accumulate, or their index is provably injective over the loop nest."""
     from . import lineval as LV
@@ -689,6 +795,7 @@ def r15_accumulate_on_scatter(facts):
             continue
         loops = s["loops"]
         env = _aliases(facts.root(body))
+        uncertain = any(k_ in ("map", "for_each", "closure") for k_ in s.get("kinds", [])[1:]) or s.get("notes_before", 0) > 0
         # `buf[e] = buf[e] + v` is an accumulating store written out
         rhs = strip(s.get("rhs")) if s.get("rhs") is not None else None
         if rhs is not None and ((rhs.get("k") == "Binary" and rhs["op"] in ("Add", "Sub"))
@@ -700,7 +807,12 @@ def r15_accumulate_on_scatter(facts):
                 c.ok(inst, where, "accumulating store written as `place = place + value`; %s" % role)
                 continue
         ok, why = False, ""
-        if idx is None:
+        lp = peel(s["lhs"])
+        if idx is None and isinstance(lp, dict) and lp.get("k") == "Call" and callee(lp) in (
+                "core::option::Option::<T>::unwrap", "core::option::Option::<T>::expect") and \
+                peel(lp["args"][0]).get("k") == "Call" and callee(peel(lp["args"][0])) == "core::iter::traits::iterator::Iterator::next":
+            ok, why = True, "store through `iterator.next()`: a sequential cursor writes each element once"
+        elif idx is None:
             v = var_of(s["lhs"])
             if len(loops) == 1 and s["outer"] == 0 and v in loops[0]["vars"]:
                 ok, why = True, "store through the element reference of the single enclosing iteration (each element visited once)"
@@ -720,6 +832,9 @@ def r15_accumulate_on_scatter(facts):
                     why = why2
         if ok:
             c.ok(inst, where, "plain store of adjoint data with an injective index: %s; %s" % (why, role))
+        elif uncertain or _nested_partition(s, loops) or not _suspicious_index(idx, loops, env):
+            c.unk(inst, where, "plain store whose index could not be proved injective, and shows none of the lossy patterns (division / remainder of a "
+                  "loop variable, two loop variables with the same weight): not decided (%s)" % why)
         else:
             c.bad(inst, where, "plain store (`=`) of adjoint data at index `%s` which is not provably injective over the loop nest (%s): "
                   "where the forward operation reads an element more than once, the adjoint must accumulate (`+=`), otherwise all but the "
